@@ -67,7 +67,7 @@ def plan(tier, seed):
     JIT modes recompile the kernel at every read (about 0.1 s) and run the first n_jit of them.
     """
     if tier == "quick":
-        n, n_jit, groups = 260, 28, {"jit": 5, "boundscheck": 5, "nojit": 6}
+        n, n_jit, groups = 400, 28, {"jit": 5, "boundscheck": 5, "nojit": 6}
     else:
         n, n_jit, groups = 1900, 260, {"jit": 16, "boundscheck": 16, "nojit": 16}
     specs = []
@@ -692,7 +692,7 @@ def coverage_extra(counters, sets, tier):
 
 
 REGISTER = True
-LEVEL_TEXT = ("Exploration by runtime monitoring: about 1800 (quick) to 38000 (thorough) generated operation histories "
+LEVEL_TEXT = ("Exploration by runtime monitoring: about 2700 (quick) to 38000 (thorough) generated operation histories "
               "are executed on the real Charge container of real CCD/CMOS/MKID/APD detectors (1x1..8x8, integral and "
               "fractional pixel sizes) and the reported per-pixel array is compared after every operation with an "
               "exact-rational ledger; all histories run with interpreted kernels (NUMBA_DISABLE_JIT=1) and a prefix of "
